@@ -125,18 +125,24 @@ func (cx *Connection) Write(p []byte) (n int, err error) {
 // Wrap wraps conn in a new Connection based on cx (reusing
 // cx's existing buffer and context). This is useful after
 // a connection is wrapped by a package that does not support
-// our Connection type (for example, `tls.Server()`).
+// our Connection type (for example, `tls.Server()`); conn is
+// expected to read from cx.
 func (cx *Connection) Wrap(conn net.Conn) *Connection {
-	return &Connection{
+	wrapped := &Connection{
 		Conn:         conn,
 		Context:      cx.Context,
 		Logger:       cx.Logger,
-		buf:          cx.buf,
-		offset:       cx.offset,
 		matching:     cx.matching,
 		bytesRead:    cx.bytesRead,
 		bytesWritten: cx.bytesWritten,
 	}
+	// conn reads through cx, so any bytes still unread in cx's buffer will be
+	// delivered by cx itself; handing them to the new Connection as well would
+	// make them appear twice in the stream. Only a drained buffer is reused.
+	if cx.offset == len(cx.buf) {
+		wrapped.buf = cx.buf[:0]
+	}
+	return wrapped
 }
 
 // prefetch tries to read all bytes that a client initially sent us without blocking.
